@@ -47,6 +47,10 @@ def kernel_cases(ctx):
         for ax in ([-1.0, 1.0, 1e-05], [1e-05, -1.0, 1.0], [1.0, 1e-05, -1.0], [1.0, 1.0, 1e-4], [-1.0, 1e-6, 1.0]):
             for a in (3.141592652589793, -3.141592652589793, 3.1415926525, 3.14159264):
                 cases.append({"nq": 1, "nb": 0, "specs": [["bsr", 0, ax, a, 0.0]], "pass": ["decompose", d]})
+    #  - the witness of the OPEN finding F3 (edge of an ATOL band): always exercised, so that the KNOWN-FINDING line is
+    #    printed on every run for as long as the finding is listed and real
+    cases.append({"nq": 1, "nb": 0, "specs": [["bsr", 0, [0.0, -1e-07, 1.0], -2.4018829939767645, 0.7853981633974483]],
+                  "pass": ["decompose", "zyz"]})
     #  - b507e3a: the comparison used numpy's default atol 1e-8: the library's own 8-digit pi was refused
     for d in DEC_NAMES:
         for ax in ([1.0, 0.0, 0.0], [0.0, 1.0, 0.0], [0.0, 0.0, 1.0], [-1.0, 1.0, 0.0], [1.0, 1.0, 1.0]):
